@@ -52,6 +52,11 @@ mod gaps {
                script: (0..r.range(1, 8)).map(|_| (r.below(6), r.range(1, 30))).collect() }
     }
 
+    thread_local! { static KLINES: RefCell<Vec<String>> = const { RefCell::new(Vec::new()) }; }
+    /// lines for the driver (capacity after a reshape), produced by the last `run`
+    pub fn take_lines() -> Vec<String> { KLINES.with(|k| std::mem::take(&mut *k.borrow_mut())) }
+    fn kline(s: String) { KLINES.with(|k| k.borrow_mut().push(s)); }
+
     pub fn run(c: &Case) -> Vec<String> {
         match c.kind {
             0 => regrow(c),
@@ -106,7 +111,9 @@ mod gaps {
                         let fill = if shape == 0 { v.capacity() } else { (c.c as usize) % (v.capacity() + 1) };
                         let mut want: Vec<u8> = vec![];
                         for i in 0..fill { let e = [i as u8, 7, 9]; v.push(e); want.extend(e); }
+                        let (l0, c0) = (v.len(), v.capacity());
                         let mut w = v.into_flattened();
+                        kline(format!("K fl 3 {c0} {} {l0} {}", w.capacity(), w.len()));
                         drive!(w, want, false);
                     }
                     2 | 3 => {
@@ -115,7 +122,9 @@ mod gaps {
                         let fill = if shape == 2 { v.capacity() } else { (c.c as usize) % (v.capacity() + 1) };
                         let mut want: Vec<u8> = vec![];
                         for i in 0..fill { let e = [i as u8, 7, 9]; v.push(e); let mut n = e.to_vec(); n.extend(want.iter().copied()); want = n; }
+                        let (l0, c0) = (v.len(), v.capacity());
                         let mut w = v.into_flattened();
+                        kline(format!("K fl 3 {c0} {} {l0} {}", w.capacity(), w.len()));
                         drive!(w, want, true);
                     }
                     _ => {
@@ -123,8 +132,10 @@ mod gaps {
                         let mut v: MutBumpVec<u32, &mut B> = MutBumpVec::with_capacity_in((rest / 4).min(2), &mut bump);
                         let fill = if shape == 4 { v.capacity() } else { (c.c as usize) % (v.capacity() + 1) };
                         let mut want: Vec<u8> = vec![];
-                        for i in 0..fill { v.push(i as u32 + 40); want.push(i as u8 + 40); }
+                        for i in 0..fill { v.push((i as u32 + 40) & 0xff); want.push((i as u8).wrapping_add(40)); }
+                        let c0 = v.capacity();
                         let mut w: MutBumpVec<u8, &mut B> = v.map_in_place(|x| x as u8);
+                        kline(format!("K rs 4 1 {c0} {}", w.capacity()));
                         while w.len() < w.capacity() && w.len() < 64 { w.push(0xAB); want.push(0xAB); }
                         drive!(w, want, false);
                     }
